@@ -159,6 +159,8 @@ def check_edges(ctx, case):
     arg = list(e) if case['as_list'] else np.array(e, dtype='float64')
     if case.get('as_range'):
         arg = range(*[int(v) for v in case['as_range']])
+    if case.get('int_dtype'):
+        arg = np.array([int(v) for v in e], dtype=case['int_dtype'])      # integer edges given as an integer ndarray (unsigned ones included)
     how = case['how']
     try:
         if how == 'ctor':
@@ -178,7 +180,7 @@ def check_edges(ctx, case):
             raise Violation('MIA refused uniform bin_edges (%s): %s -> %s' % (case['why'], [float(v) for v in e][:8], raised), case)
         if obj.bins_number != len(e) - 1:
             raise Violation('MIA: bins_number %s after configuring %d edges' % (obj.bins_number, len(e)), case)
-    ctx.case(case, case['expect'] == 'refuse' and case['why'] != 'unsorted', ['expect:' + case['expect'], 'why:' + case['why'], 'how:' + how] + (['given_as_range'] if case.get('as_range') else []))
+    ctx.case(case, case['expect'] == 'refuse' and case['why'] != 'unsorted', ['expect:' + case['expect'], 'why:' + case['why'], 'how:' + how] + (['given_as_range'] if case.get('as_range') else []) + (['given_as_%s_array' % case['int_dtype']] if case.get('int_dtype') else []))
 
 
 def replay(ctx, case):
@@ -399,7 +401,34 @@ def edge_cases(draw):
             as_range = [a_ + st_ * nb_, a_ - 1, -st_]
             e = list(range(*as_range))
             why, expect = 'unsorted', 'refuse'
-    return {'kind': 'edges', 'edges': e, 'why': why, 'expect': expect, 'as_list': draw(st.booleans()), 'how': draw(st.sampled_from(['ctor', 'setter'])), 'as_range': as_range}
+    int_dtype = None
+    if as_range is None and draw(st.integers(0, 5)) == 0:
+        # integer edges in an integer ndarray: increasing evenly spaced ones are accepted, decreasing ones, sets whose step is constant only
+        # modulo the width of an unsigned dtype, and unsorted ones are refused
+        int_dtype = draw(st.sampled_from(['uint8', 'uint16', 'uint32', 'uint64', 'int16', 'int32']))
+        top = min(int(np.iinfo(int_dtype).max), 60000)
+        nb_ = draw(st.integers(1, 6))
+        st_ = draw(st.integers(1, max(1, top // (nb_ + 1))))
+        a_ = draw(st.integers(0, top - st_ * nb_))
+        inc = [a_ + st_ * i for i in range(nb_ + 1)]
+        flavour = draw(st.sampled_from(['increasing', 'decreasing', 'wrapping', 'swapped']))
+        if flavour == 'increasing':
+            e, why, expect = inc, 'uniform', 'accept'
+        elif flavour == 'decreasing':
+            e, why, expect = inc[::-1], 'unsorted', 'refuse'
+        elif flavour == 'wrapping' and int_dtype in ('uint8', 'uint16') and nb_ >= 2:
+            mod = int(np.iinfo(int_dtype).max) + 1
+            step = draw(st.integers(mod // 4, mod // 2))
+            e = [(a_ + step * i) % mod for i in range(nb_ + 2)]
+            why, expect = 'unsorted', 'refuse'
+            if e == sorted(e) and len(set(e)) == len(e):
+                why, expect = 'uniform', 'accept'
+        else:
+            e = list(inc)
+            if nb_ >= 1:
+                e[0], e[1] = e[1], e[0]
+            why, expect = 'unsorted', 'refuse'
+    return {'kind': 'edges', 'edges': e, 'why': why, 'expect': expect, 'as_list': draw(st.booleans()), 'how': draw(st.sampled_from(['ctor', 'setter'])), 'as_range': as_range, 'int_dtype': int_dtype}
 
 
 def unit_mi(ctx, precision, tdtypes, n):
